@@ -1,6 +1,7 @@
 package main
 
 import (
+	"strings"
 	"fmt"
 	"os"
 	"go/types"
@@ -77,6 +78,20 @@ func nodeStatesInParallelModel(f *Frame, ins ssa.Instruction, call *ssa.CallComm
 				continue
 			}
 			f.oblige(pre, "pre", "getter."+rq.Label, []string{"C20"}, rq.Tags, mkQuant("forall", []BVar{bq}, tImp(containsTerm(xs, kq), t)), ins.Pos(), rq.Text)
+		}
+	}
+	if c.Flags["noerr"] {
+		// the getter is verified never to return an error (its contract must carry `ensures ...: result1 == nil`)
+		ok := false
+		for _, en := range c.Ensures {
+			if strings.Contains(strings.ReplaceAll(en.Text, " ", ""), "result1==nil") && !strings.Contains(en.Text, "==>") {
+				ok = true
+			}
+		}
+		if ok {
+			f.addHyp(st.pc, tEq(errT, tInt(0)))
+		} else {
+			f.eng.specErrors = append(f.eng.specErrors, "flag noerr on "+c.Func+" without an unconditional ensures result1 == nil")
 		}
 	}
 	var posts []*Term
